@@ -12,6 +12,9 @@ CONSTANT PreVote) checked by TLC, bound to the real raft.RawNode code by
   B2  seeded random runs of 3 real RawNodes inside the spec's scope (with and without PreVote), validated line by
       line against EtcdRaft.tla by spec/TraceEtcdRaft.tla (every event must be the spec's action, every projection
       and the message bag equal);
+  B1w spec/ReadyWindow.tla (one follower's log pipeline: unstable over storage, Ready, the application's save and
+      Advance as separate steps, appends/heartbeats of successive leaders arriving in between): EVERY transition of
+      its state graph replayed on a real RawNode by `raftsim window` (lib/readywin.py); decided on the node's outputs;
   plus seeded random schedules far outside the model (crash/restart, partitions, drop/dup, conf changes v1/v2/
       joint/learners, compaction and snapshots, PreVote with CheckQuorum, one-entry appends) on 3-5 real RawNodes.
 THE VERDICT comes only from spec/RaftObs.tla: TLC evaluates the C15 clauses on the projection of every real node
@@ -21,6 +24,7 @@ import concurrent.futures as cf
 import hashlib, json, os, re, shutil, subprocess, sys, time
 
 import common
+import readywin
 
 PROP = "C15"
 TIER = common.tier_arg()
@@ -370,6 +374,9 @@ def main():
 
     pool = cf.ThreadPoolExecutor(max_workers=max(4, ncpu - 2))
 
+    # ---- 0. the Ready/Advance window (ReadyWindow.tla, B1 on one real RawNode) in the background
+    window_collect = readywin.run(sim_bin, work, TIER, SEED, pool)
+
     # ---- 1. model sanity (exhaustive) in the background
     mc_workers = 5 if QUICK else 8
     mc_pv_workers = 3 if QUICK else 8
@@ -636,6 +643,20 @@ def main():
     for rep_path, st in rep_outs:
         panic_samples += report_panics(verdict, "replay", rep_path, st.get("panics"))
 
+    # ---- 7b. the Ready/Advance window
+    w_viol, w_div, w_cov = window_collect()
+    log("ReadyWindow: %d transitions replayed on a real RawNode (%d real steps), %d violating, %d diverging replays" % (
+        w_cov["transitions_replayed"], w_cov["real_steps"], w_cov["violating_replays"], w_cov["diverging_replays"]))
+    for f in w_viol:
+        sig = {"branch": "raft.window." + f["kind"], "kind": "real-rawnode-output", "detail": f["branch"]}
+        verdict.report(sig, {"family_leader_logs_by_term": f["family"], "steps": f["path"], "instance": f["instance"], "replays_failing_alike": f["count"],
+                             "how": "raftsim window replays `steps` on one real raft.RawNode (follower, id 1 of 5 voters) over MemoryStorage: app = "
+                                    "Step(MsgApp of the leader of that term: prev index/term, entries' terms, commit), ready = RawNode.Ready, save = "
+                                    "storage.Append(rd.Entries)+SetHardState then the messages leave, advance = RawNode.Advance(rd)"},
+                       "%s [%s, %s]: %s; after %s" % (f["kind"], f["phase"], f["branch"], f["detail"], " ; ".join(f["path"])))
+    for f in w_div[:5]:
+        print("DIVERGENCE property=C15 kind=ready-window/%s at=%s detail=%s path=%s" % (f["kind"], f["branch"], f["detail"], " ; ".join(f["path"])), flush=True)
+
     # ---- 8. divergences / panics that no monitor turned into a violation
     for d in divergences[:5]:
         print("DIVERGENCE property=C15 kind=lockstep behaviour=%s step=%d action=%s detail=%s" % (
@@ -684,6 +705,7 @@ def main():
         "panics_in_library": panics,
         "monitor_rejects_corrupted": corr,
         "spec_action_histogram": hist, "faults_instance": faults_states,
+        "ready_window": w_cov,
         "samples": samples,
     }
     assumptions = [
@@ -692,15 +714,16 @@ def main():
         "EtcdRaft.tla covers fixed membership without snapshots/CheckQuorum, with and without PreVote (PreVote only with CheckQuorum off: no leader lease); membership change, snapshots and CheckQuorum (also combined with PreVote) are exercised only by the random scheduler and judged by RaftObs",
         "proposal forwarding disabled, MaxInflightMsgs=256, MaxSizePerMsg unlimited or one entry; ReadIndex and leader transfer not exercised",
         "election timeouts are not simulated with the package RNG: Campaign() is an explicit event, followers tick with TickQuiesced",
+        "ReadyWindow: the node under test is a follower that is never asked for its vote (five voters, the four others elect the leaders); leaders' logs per behaviour from a fixed family (quick: 3 families of 2 leaders; thorough: 4 families of 3 leaders replayed, all 127 families with logs <= 3 model-checked); snapshots and the node's own leadership are outside this specification",
         "a panic raised by one of the library's own log-safety assertions (tocommit out of range, conflict with committed entry, ...) in a legal schedule counts as a violation (kind safety-assertion-panic); never observed on the unchanged tree",
     ]
-    if divergences or panic_samples or b2_div:
+    if divergences or panic_samples or b2_div or w_div:
         if not verdict.violations:
             # behaviour of the library departs from the specification (or it panics) but no clause of C15 was
             # falsified on any real trace: conservative "not shown" (DESIGN 2.2 B3 step 5)
             common.write_evidence(PROP, TIER, "model_checking", coverage, assumptions, time.time() - T0, 0)
             print("INFRA-ERROR: unreproduced divergence between EtcdRaft.tla and the raft library (%d lockstep, %d trace-validation, "
-                  "%d unclassified panics); no C15 clause falsified" % (len(divergences), len(b2_div), len(panic_samples)), flush=True)
+                  "%d unclassified panics, %d Ready-window replays); no C15 clause falsified" % (len(divergences), len(b2_div), len(panic_samples), len(w_div)), flush=True)
             sys.exit(2)
     verdict.finish(TIER, "model_checking", coverage, assumptions)
 
